@@ -204,3 +204,59 @@ Fixpoint run_all_ok (s : estate) (ops : list op) : bool :=
               | _ => false
               end
   end.
+
+(* ================= C18obs: observational version of Synced ================= *)
+(* (helpers added at the end; nothing above is changed) *)
+From CV Require Import Model.SpecC05 Model.SpecC09.
+
+(* the STORE half of syncedb: loading from the adapter and building the links
+   reproduces the model store (the role manager built on the way is not
+   compared), and the adapter's filtered mark agrees *)
+Definition store_syncedb (s : estate) : bool :=
+  match ad_load (e_adapter s) (m_clear_policy (e_model s)) with
+  | (ad, md, LROk) =>
+    match build_model md with
+    | (md', _, LOk) =>
+      model_eqb md' (e_model s) && Bool.eqb (ad_is_filtered ad) (ad_is_filtered (e_adapter s))
+    | _ => false
+    end
+  | _ => false
+  end.
+
+(* the weaker hypothesis: the store is what the adapter reloads to; the role
+   graph only has to hold the right edge SET per domain (role_sync_b: well-formed
+   manager, edges = links of the stored grouping rules, handles and role
+   functions current), every grouping rule has the arity of its definition
+   (g_exact), and every hierarchy is below the depth limit (shallow_b) *)
+Definition obs_syncedb (s : estate) : bool :=
+  store_syncedb s && role_sync_b s && g_exact (e_model s) &&
+  shallow_b (f_rm_max (e_fs s)) (f_rm (e_fs s)).
+
+(* ---- re-parsing the definition ---- *)
+(* every handle back to the assertion's own manager *)
+Definition hreset_am (am : amap) : amap := map (fun ka => (fst ka, with_handle (snd ka) HOwn)) am.
+Definition hreset (md : model) : model := map (fun sa => (fst sa, hreset_am (snd sa))) md.
+(* the store without the contents of its g section *)
+Definition gdrop (md : model) : model :=
+  match assoc s_g md with Some _ => assoc_set s_g [] md | None => md end.
+(* the model store is what a load into the RE-PARSED definition can produce:
+   emptying sections p and g empties everything (no rules are stored outside
+   p and g), and outside g every handle is the assertion's own *)
+Definition reparse_ok (md : model) : bool :=
+  model_eqb (defs_of md) (hreset (m_clear_policy md)) && model_eqb (hreset (gdrop md)) (gdrop md).
+
+(* ---- the calls of the incremental histories ---- *)
+(* a management call that names a section names p or g *)
+Definition pg_op (o : op) : bool :=
+  match o with
+  | OAdd sec _ _ | OAddMany sec _ _ | ORemove sec _ _ | ORemoveMany sec _ _
+  | ORemoveFiltered sec _ _ _ => pg_sec sec
+  | _ => true
+  end.
+(* every call C09 quantifies over (all but set_model, set_adapter,
+   load_filtered_policy, enable_auto_save(false)), on sections p and g *)
+Definition obs_op (o : op) : bool := c09_op o && pg_op o.
+
+(* a plain memory adapter, not marked filtered, holding p and g lines only *)
+Definition mem_plain (a : adapter) : bool :=
+  match a with AMemory l f => negb f && forallb pg_mem_line l | _ => false end.
